@@ -521,10 +521,29 @@ class Table:
 class TransactionDecode:
     def filter(self, transactions:Iterable[str]) -> Iterable[Any]:
         transactions = iter(filter(None,map(methodcaller('strip'),transactions)))
-        ver_row = json.loads(next(transactions))
+        try:
+            ver_row = json.loads(next(transactions))
+        except (StopIteration,EOFError,ValueError):
+            #an empty file or a file whose first record was only partly written
+            yield ["version",4]
+            return
+
         if ver_row[1] == 4:
             yield ver_row
-            yield from map(json.loads,transactions)
+            #a run that was interrupted while writing can leave a final record
+            #that is only partly written (for gz files a truncated gzip member)
+            prev = None
+            try:
+                for line in transactions:
+                    if prev is not None: yield json.loads(prev)
+                    prev = line
+            except EOFError:
+                pass
+            if prev is not None:
+                try:
+                    yield json.loads(prev)
+                except ValueError:
+                    pass
 
 class TransactionEncode:
     def __init__(self,restored):
